@@ -4,8 +4,12 @@ import os
 import signal
 
 
+_strikes = [0]
+
+
 def _one(sc):
     from harness.detsim.scenario import run_scenario
+    _strikes[0] = 0
     signal.alarm(int(os.environ.get('VERIF_CASE_WALL', '120')))
     try:
         return run_scenario(sc)
@@ -13,10 +17,21 @@ def _one(sc):
         signal.alarm(0)
 
 
+def _on_alarm(*_):
+    """a case that is still running after the wall-clock budget (normal cases take < 2 s): first it is ended like a run the
+    scheduler found stuck, so that it is reported with its scenario; if that does not end it, the process is given up"""
+    from harness.detsim import sim
+    _strikes[0] += 1
+    if _strikes[0] >= 2:
+        os._exit(3)
+    signal.alarm(20)
+    raise sim.Stuck('wall-clock', 'the case was still running after %s s of wall-clock time' % os.environ.get('VERIF_CASE_WALL', '120'))
+
+
 def _init():
     import logging
     logging.getLogger('mpire').setLevel(logging.ERROR)
-    signal.signal(signal.SIGALRM, lambda *_: os._exit(3))
+    signal.signal(signal.SIGALRM, _on_alarm)
 
 
 def run_all(scenarios, procs=None, chunksize=4):
@@ -30,7 +45,7 @@ def run_all(scenarios, procs=None, chunksize=4):
         hs = [pool.apply_async(_one, (sc,)) for sc in scenarios]
         for i, h in enumerate(hs):
             try:
-                out[i] = h.get(600)
+                out[i] = h.get(int(os.environ.get('VERIF_CASE_WALL', '120')) * 2 + 60)
             except Exception as e:  # a crashed/timed-out harness process: infrastructure, not a verdict
                 out[i] = {'harness_error': 'case did not finish: ' + repr(e), 'ops': [], 'calls': []}
     return out
